@@ -5,6 +5,9 @@ import Pyunicorn.Lemmas.RecurrenceAdaptive
 import Pyunicorn.Lemmas.RecurrenceAffine
 import Pyunicorn.Lemmas.RecurrenceStd
 import Pyunicorn.Lemmas.RecurrenceRound3
+import Pyunicorn.Lemmas.RecurrenceStruct
+import Pyunicorn.Lemmas.RecurrenceNormCols
+import Pyunicorn.Lemmas.RecurrenceDiag
 /-!
 # C07 — recurrence matrices are exactly the thresholded distance matrices
 
@@ -1536,5 +1539,147 @@ theorem recurrence_probability_spec (R : List (List Bool)) (N : Int) (lag : Nat)
 example : recurrenceRate [[true, false], [true, true]] 2 = some (3/4)
     ∧ recurrenceProbability [[true, false], [true, true]] 2 1 = some 0
     ∧ recurrenceProbability [[true, false], [true, true]] 2 2 = none := by decide +kernel
+
+/-! ### round 4: the `outcome` table derived from the method bodies
+
+`translate/gen_C07.py` regenerates the body of every non-setter method of the six classes as a
+program (raises, tests on the object's switches, calls with dynamic dispatch through the MRO, calls
+on sub-objects, reads of the stored matrix, uses of values that may be `None`) and the tables that
+say which constructor / setter stores which matrix attribute; `Model/RecurrenceStruct.lean`
+interprets them (`runPublic`). -/
+
+/-- **the `outcome` table is what the method bodies of the current source do**: for every public
+non-setter method `m` reachable on class `cls` (generated list), classified by `needOf`, and every
+setting of the switches (`sparse_rqa` — `RecurrencePlot` only —, supremum metric, fixed threshold
+given, `missing_values`, `dim` given, `tau` given), running the regenerated body — with dynamic
+dispatch of every `self.…()` call, the regenerated provision of `R` / `CR` / `JR` by the
+constructors and `None` propagated to its uses — returns, or raises `NotImplementedError` /
+`ValueError`, exactly as `outcome` says; in particular it never ends in an undocumented error. -/
+theorem outcome_derived (cls m : String) (c : Cls) (need : Need) (a : Atoms)
+    (hp : (cls, m) ∈ StructC07.publicMethods) (hc : clsOfName cls = some c)
+    (hn : needOf m = some need) (hv : atomsValid c a = true) :
+    (runPublic cls a m).outcome = some (outcome (cfgOf c a) need) := by
+  have h := derivedAgrees_of_mem (cls, m) hp
+  simp only [derivedAgrees, hc, hn] at h
+  have ha := List.all_eq_true.mp h a (mem_allAtoms a)
+  simpa [hv] using ha
+
+/-- no classified public method of any class ends in an undocumented error (`TypeError` /
+`AttributeError` on a matrix that is not stored, an exception class that is not documented, a
+statement outside the translator's language) — the claim of repairs bb6427c and 98bfc41 for all
+classes, methods and switch settings -/
+theorem public_call_documented (cls m : String) (c : Cls) (need : Need) (a : Atoms)
+    (hp : (cls, m) ∈ StructC07.publicMethods) (hc : clsOfName cls = some c)
+    (hn : needOf m = some need) (hv : atomsValid c a = true) :
+    runPublic cls a m ≠ .crash := by
+  intro h
+  have := outcome_derived cls m c need a hp hc hn hv
+  rw [h] at this
+  simp [Run.outcome] at this
+
+/-- **which construction provides which stored matrix** (derived from the regenerated constructor
+dispatch, setter bodies and parent-constructor calls): `RecurrencePlot` / `RecurrenceNetwork` store
+`R` unless `sparse_rqa`; `CrossRecurrencePlot` stores `CR` and never `R` (`skip_recurrence=True`);
+the joint classes store `JR` -/
+theorem stored_matrix_provided (a : Atoms) :
+    provides 4 "RecurrencePlot" false a "R" = !a.sparse
+    ∧ provides 4 "RecurrenceNetwork" false a "R" = !a.sparse
+    ∧ provides 4 "CrossRecurrencePlot" false a "CR" = true
+    ∧ provides 4 "CrossRecurrencePlot" false a "R" = false
+    ∧ provides 4 "JointRecurrencePlot" false a "JR" = true
+    ∧ provides 4 "JointRecurrenceNetwork" false a "JR" = true :=
+  provides_table a
+
+/-- every public method the generated list contains for the five matrix-holding classes is
+classified (so `outcome_derived` speaks about all of them) -/
+theorem public_methods_classified :
+    StructC07.publicMethods.all (fun p => (needOf p.2).isSome) = true := by decide +kernel
+
+example : runPublic "RecurrencePlot" ⟨true, true, false, false, false, false⟩ "rqa_summary"
+      = .notImplemented
+    ∧ runPublic "RecurrencePlot" ⟨true, true, true, true, false, false⟩ "rqa_summary" = .ret false
+    ∧ runPublic "RecurrencePlot" ⟨true, true, true, false, false, false⟩ "recurrence_matrix"
+      = .ret true
+    ∧ runPublic "CrossRecurrencePlot" ⟨false, true, true, false, true, true⟩ "permutation_entropy"
+      = .valueError
+    ∧ runPublic "InterSystemRecurrenceNetwork" ⟨false, true, true, false, false, false⟩
+        "internal_recurrence_rates" = .ret false := by decide +kernel
+
+/-! ### round 4: `normalize=True` on a multi-column series (the bridge) -/
+
+/-- **`normalize_time_series` on an `(n, d)` array is the per-column affine map** `x ↦ (x − μ_j)/σ_j`
+with `μ_j` the mean and `σ_j > 0`, `σ_j² = var_j` the standard deviation of column `j` (all
+variances non-zero, roots rational — where the exact model answers) -/
+theorem normalize_multicolumn_is_affine (series S : List (List V)) (d : Nat)
+    (hne : series ≠ []) (hrect : ∀ r ∈ series, r.length = d)
+    (h : storedSeries series true = some S)
+    (hvar : ∀ j, j < d → ∃ v, varV (colOf series j) = some v ∧ v ≠ 0) :
+    ∃ mu sd : List Rat, mu.length = d ∧ sd.length = d ∧ (∀ s ∈ sd, 0 < s) ∧
+      (∀ j, j < d → meanV (colOf series j) = some (mu.getD j 0) ∧
+          varV (colOf series j) = some (sd.getD j 0 * sd.getD j 0)) ∧
+      S = series.map (affRow mu sd) :=
+  normalizeSeries_eq_affRow series S d hne hrect (by simpa [storedSeries] using h) hvar
+
+/-- **the normalised multi-column plot is a thresholded weighted distance matrix of the given
+series**: `RecurrencePlot(series, normalize=True, threshold=ε)` marks `i ≠ k` recurrent exactly
+when the kernel's loop on `|x_{i,l} − x_{k,l}| / σ_l` is below `ε` (and, with `missing_values`,
+neither state holds a missing value) — the open bridge of rounds 2 and 3 between the method
+(`normalizeSeries`) and `normalized_states_weighted_distance` -/
+theorem normalized_multicolumn_plot (m : Metric) (series S : List (List V)) (d : Nat) (eps : Rat)
+    (mv : Bool) (hne : series ≠ []) (hrect : ∀ r ∈ series, r.length = d)
+    (h : storedSeries series true = some S)
+    (hvar : ∀ j, j < d → ∃ v, varV (colOf series j) = some v ∧ v ≠ 0) :
+    ∃ sd : List Rat, sd.length = d ∧ (∀ s ∈ sd, 0 < s) ∧
+      (∀ j, j < d → varV (colOf series j) = some (sd.getD j 0 * sd.getD j 0)) ∧
+      ∀ i k, i < series.length → k < series.length → i ≠ k →
+        entry (fixedThreshold m S eps mv) i k
+          = some (ltV (distW m sd (rowOf series i) (rowOf series k)) (some (unitThr m eps))
+                  && !(mv && (missingAt S i || missingAt S k))) := by
+  obtain ⟨sd, hsd, hpos, hv, hlen, hdist⟩ :=
+    normalizeSeries_dist m series S d hne hrect (by simpa [storedSeries] using h) hvar
+  refine ⟨sd, hsd, hpos, hv, ?_⟩
+  intro i k hi hk hik
+  have hent : rpEntry m S i k = distW m sd (rowOf series i) (rowOf series k) := by
+    unfold rpEntry
+    by_cases h1 : k < i
+    · simp only [h1, if_true]; exact hdist i k hi hk
+    · have h2 : i < k := by omega
+      simp only [h1, h2, if_false, if_true]
+      rw [dist_comm]; exact hdist i k hi hk
+  cases mv with
+  | false =>
+    rw [rec_iff_dist_lt m S eps i k (by omega) (by omega), hent]; simp
+  | true =>
+    rw [rec_iff_dist_lt_missing m S eps i k (by omega) (by omega), hent]
+    cases missingAt S i <;> cases missingAt S k <;> simp
+
+example : storedSeries [[some 1, some 0], [some 3, some 1], [some 1, some 0], [some 3, some 1]] true
+    = some [[some (-1), some (-1)], [some 1, some 1], [some (-1), some (-1)], [some 1, some 1]] := by
+  decide +kernel
+
+/-! ### round 4: `diagline_dist` on asymmetric (fixed local rate) matrices -/
+
+/-- **`diagline_dist` reads the strict lower triangle only** (with or without the missing-value
+mask): two matrices that agree below the diagonal have the same histogram — on the asymmetric
+matrix of `set_fixed_local_recurrence_rate` the method returns twice the line count of the
+lower triangle `R[i,j]`, `i > j` -/
+theorem diagline_dist_lower_only (R R' : List (List Bool)) (n : Nat) (mask : Option (List Bool))
+    (h : ∀ i j, j < i → i < n → LineDist.Mat.at R i j = LineDist.Mat.at R' i j) :
+    diaglineDist R n mask = diaglineDist R' n mask :=
+  diaglineDist_congr R R' n mask h
+
+/-- **on a symmetric matrix** (fixed threshold, global rate, adaptive, joint, inter-system — all
+proved symmetric above) the doubled histogram is the line count over *all* off-main diagonals -/
+theorem diagline_dist_symmetric (R : List (List Bool)) (n : Nat)
+    (hs : ∀ i j, i < n → j < n → LineDist.Mat.at R i j = LineDist.Mat.at R j i) :
+    diaglineDist R n none = diaglineAll R n :=
+  diaglineDist_symm R n hs
+
+/-- witness: on an asymmetric matrix the two differ (lower triangle: one line of length 2;
+upper triangle: empty), which is why nothing more than `diagline_dist_lower_only` is claimed -/
+example : diaglineDist [[true, false, false], [true, true, false], [false, true, true]] 3 none
+      = [0, 2, 0]
+    ∧ diaglineAll [[true, false, false], [true, true, false], [false, true, true]] 3 = [0, 1, 0] := by
+  decide +kernel
 
 end Pyunicorn.Recurrence
